@@ -93,6 +93,9 @@ func init() {
 		var plans []kvPlan
 		for _, ts := range []int{128, 200} {
 			plans = append(plans, kvPlan{kvmc.Config{TableSize: ts, Keys: 3, Sizes: []int{10, 30}, Kinds: kinds, IdleTimeout: int64(15 * 60 * 1e9), MaxTables: 12}, depth})
+			// recycled tables released as soon as a compaction pass finds them (idle timeout 0): the
+			// table list and the scan index shrink while older tables are still live
+			plans = append(plans, kvPlan{kvmc.Config{TableSize: ts, Keys: 3, Sizes: []int{10, 30}, Kinds: kinds, IdleTimeout: 0, MaxTables: 12}, depth})
 		}
 		c.Cov["rule"] = "BFS over operation paths on the real KVStore (fresh store + replay per transition), de-duplicated on the canonical table layout; non-trivial = distinct states whose store spans >= 2 tables"
 		oracle := func(w *kvmc.World, path []kvmc.Op) []kvmc.Fail {
@@ -127,6 +130,9 @@ func init() {
 		var plans []kvPlan
 		for _, ts := range []int{128, 200} {
 			plans = append(plans, kvPlan{kvmc.Config{TableSize: ts, Keys: 3, Sizes: []int{10, 30}, Kinds: kinds, IdleTimeout: int64(15 * 60 * 1e9), MaxTables: 12}, depth})
+			// recycled tables released as soon as a compaction pass finds them (idle timeout 0): the
+			// table list and the scan index shrink while older tables are still live
+			plans = append(plans, kvPlan{kvmc.Config{TableSize: ts, Keys: 3, Sizes: []int{10, 30}, Kinds: kinds, IdleTimeout: 0, MaxTables: 12}, depth})
 		}
 		c.Cov["rule"] = "storage level: in every state of the E1 BFS a full cursor scan is run for COUNT in {1,2,10} x MATCH in {none,^a,^zz}, and a COUNT=1 scan with every single operation of the alphabet applied between two cursor calls at every position (keys present before and after must be yielded, never-present keys must not, the scan terminates); non-trivial = distinct states whose store spans >= 2 tables"
 		runKV(c, plans, func(w *kvmc.World, path []kvmc.Op) []kvmc.Fail {
